@@ -88,10 +88,18 @@ def check(rep, tier, seed):
     cases += ex
     stress = [stress_case(e, 8, 150 if tier == "quick" else 1500) for e in ENGINES for _ in range(1 if tier == "quick" else 4)]
     cases += stress
+    # initial state "deleted and (being) compacted": a compaction stepped through its storage calls between the
+    # writers' storage calls (the generator of C07's race cases, storage-call granularity)
+    from . import c07
+    comp = [c07.race_case(seed, 2 * i + 1, ["tikv", "badger", "memkv"][i % 3]) for i in range(12 if tier == "quick" else 300)]
+    cases += comp
     core.run_cases(cases)
     for c in cases:
         rep.count_case(c)
-        hit = stress_oracle(c) if c.meta.get("stress") else sched.oracle_c01(c)
+        if c.meta.get("stress"):
+            hit = stress_oracle(c)
+        else:
+            hit = sched.oracle_c01(c) or sched.oracle_cf_justified(c)
         if hit:
             if core.handle_oracle_hit(rep, "C01", hit[1], c, hit[0], hit[1]):
                 return
